@@ -144,6 +144,7 @@ func main() {
 		variants = flag.String("variants", "", "comma-separated variants to restrict to (default: all 16)")
 		statsOut = flag.String("stats", "", "write the distribution of what was generated to this JSON file")
 		id0      = flag.Uint64("id0", 1, "id of the first case")
+		indexOut = flag.String("index", "", "write `id profile` lines (one per case) to this file")
 		noHeader = flag.Bool("noheader", false, "do not print the unicode header line")
 	)
 	flag.Parse()
@@ -211,6 +212,16 @@ func main() {
 	if !*noHeader {
 		fmt.Fprintln(w, pvcase.UnicodeHeader())
 	}
+	var index *bufio.Writer
+	if *indexOut != "" {
+		f, err := os.Create(*indexOut)
+		if err != nil {
+			usage("%v", err)
+		}
+		defer f.Close()
+		index = bufio.NewWriter(f)
+		defer index.Flush()
+	}
 	written := 0
 	for written < *n {
 		prof := pickProfile()
@@ -226,6 +237,9 @@ func main() {
 				g.st.Twins++
 			}
 			fmt.Fprintln(w, c.String())
+			if index != nil {
+				fmt.Fprintf(index, "%d %s\n", c.ID, prof)
+			}
 			written++
 		}
 	}
